@@ -707,9 +707,19 @@ func wrapDisabled(d, exp Exp, lookup *TypeLookup) (Exp, error) {
 	case *SplitExp:
 		switch v := d.Value.(type) {
 		case *RefExp:
-			exp = &DisabledExp{
-				Disabled: v,
-				Value:    exp,
+			if _, ok := v.Forks[d.Call]; ok {
+				// The reference itself says which element is meant.
+				exp = &DisabledExp{
+					Disabled: v,
+					Value:    exp,
+				}
+			} else {
+				// Keep the split, or the condition would be the whole
+				// collection rather than this fork's element of it.
+				exp = &DisabledExp{
+					Disabled: d,
+					Value:    exp,
+				}
 			}
 		case *ArrayExp:
 			arr := *v
